@@ -85,7 +85,28 @@ def _rename_locals(tree, suffix="_v"):
     return tree
 
 
+def _reorder_methods(tree):
+    """Behaviour-preserving: the methods of every class are put in alphabetical order (a property's getter stays before
+    its setter; classes whose body mixes statements and methods after the first method are left alone)."""
+    fdefs = (ast.FunctionDef, ast.AsyncFunctionDef)
+    for c in ast.walk(tree):
+        if not isinstance(c, ast.ClassDef):
+            continue
+        first = next((i for i, st in enumerate(c.body) if isinstance(st, fdefs)), None)
+        if first is None or not all(isinstance(st, fdefs) for st in c.body[first:]):
+            continue
+        head, fns = c.body[:first], c.body[first:]
+        order = {}
+        for i, f in enumerate(fns):
+            order.setdefault(f.name, i)
+        fns_sorted = sorted(fns, key=lambda f: (f.name, fns.index(f)))
+        c.body = head + fns_sorted
+    return tree
+
+
 def _transform(kind, text):
+    if kind == "reorder-methods":
+        return ast.unparse(_reorder_methods(ast.parse(text))) + "\n"
     if kind == "unparse":
         return ast.unparse(ast.parse(text)) + "\n"
     if kind == "shift":
@@ -99,6 +120,7 @@ GLOBAL_BENIGN = [
     {"id": "global-reformat(ast.unparse of every module)", "transform": "unparse", "expect": None},
     {"id": "global-shift(comment lines added before every module and method)", "transform": "shift", "expect": None},
     {"id": "global-rename-locals(every purely local variable renamed)", "transform": "rename-locals", "expect": None},
+    {"id": "global-reorder-methods(methods of every class in alphabetical order)", "transform": "reorder-methods", "expect": None},
 ]
 
 
